@@ -30,6 +30,17 @@ void *memcpy(void *dst, const void *src, size_t n) {
 		((uint8_t *)dst)[i] = ((const uint8_t *)src)[i];
 	return (dst);
 }
+/* memchr, defining loop (first occurrence or NULL), for the same jobs */
+void *memchr(const void *s, int c, size_t n) {
+	size_t i;
+
+	__CPROVER_precondition(n == 0 || __CPROVER_r_ok(s, n), "memchr: span inside its object");
+	for (i = 0; i < n; i ++) {
+		if (((const uint8_t *)s)[i] == (uint8_t)c)
+			return ((void *)((const uint8_t *)s + i));
+	}
+	return (NULL);
+}
 #elif defined(VF_DNS_MEMCPY_SLICE)
 /* contract form for the construction side (C15): exactly dst[0..n) is assigned and, observed at
  * the ghost index vf_dns_k (contracts/dns.h part 2), holds the source bytes */
